@@ -217,6 +217,22 @@ def copy_case(acc, rnd, tier):
         donor.add_transition(Transition('OTHER', None, event='other'))
     else:
         donor, _ = build.build_api(ch)
+    # one guest in seven declares the same transition twice (add_transition accepts it: the guest then raises NonDeterminismError
+    # whenever that transition is enabled - and so must the host)
+    twin = None
+    if ch['transitions'] and rnd.random() < 0.15:
+        twin = rnd.choice(ch['transitions'])['id']
+        for scx, tmx in ((sc_g, tmap_g), (donor, None)):
+            lab = (build.Coder().action(ch, next(t for t in ch['transitions'] if t['id'] == twin)) or '').strip()
+            o = next(t for t in scx.transitions if (t.action or '').strip() == lab)
+            c = Transition(o.source, o.target, event=o.event, guard=o.guard, action=o.action, priority=o.priority)
+            c.preconditions.extend(o.preconditions)
+            c.invariants.extend(o.invariants)
+            c.postconditions.extend(o.postconditions)
+            scx.add_transition(c)
+            if tmx is not None:
+                tmx[id(c)] = tmx[id(o)]
+        acc.count('guests_with_a_transition_declared_twice')
     host = Statechart('host')
     host.add_state(CompoundState('HOST', initial='IDLE'), None)
     host.add_state(BasicState('IDLE'), 'HOST')
@@ -235,7 +251,7 @@ def copy_case(acc, rnd, tier):
                 host_own.append('host:%s' % ev)
         acc.count('hosts_with_own_transitions_on_the_replaced_state')
     f = lambda n: 'G' + n       # noqa: E731   order-preserving among the guest's states
-    wit = dict(chart=ch, partial=partial)
+    wit = dict(chart=ch, partial=partial, twin=twin)
     order = {n: i for i, n in enumerate(ch['order'])}
     backward = any(t['target'] is not None and order[t['target']] <= order[t['source']] for t in ch['transitions'])
     if backward:
@@ -265,16 +281,18 @@ def copy_case(acc, rnd, tier):
         a = (t.action or '').strip()
         labels.append(by_action.get(a, 'host:%s' % t.event))
         if a in by_action:
-            if by_action[a] in tmap_h.values():
+            if by_action[a] in tmap_h.values() and by_action[a] != twin:
                 acc.violation('C17:copy-duplicated-transition', 'transition %s of the guest appears more than once in the host'
                               % by_action[a], wit)
                 return
             tmap_h[id(t)] = by_action[a]
         else:
             tmap_h[id(t)] = 'host:%s' % t.event
-    if sorted(labels) != sorted([t['id'] for t in ch['transitions']] + host_own):
-        acc.violation('C17:copy-lost-transition', 'host has transitions %r, guest has %r' %
-                      (sorted(labels), sorted([t['id'] for t in ch['transitions']] + host_own)), wit)
+    if sorted(labels) != sorted([t['id'] for t in ch['transitions']] + host_own + ([twin] if twin else [])):
+        acc.violation('C17:copy-lost-transition', 'host has transitions %r, guest has %r%s' %
+                      (sorted(labels), sorted([t['id'] for t in ch['transitions']] + host_own + ([twin] if twin else [])),
+                       ' (the guest declares %s twice: two registered transitions that compare equal)' % twin if twin else ''),
+                      dict(wit, twin=twin))
         return
     back = {f(n): n for n in ch['order']}
     back['SLOT'] = groot
